@@ -111,6 +111,8 @@ def rand_custom_param(r, gid, name, maxdesc=255):
                 for d in dims[1:]:
                     n *= d
             p["values"] = [bytes(r.choice(b"ABCdef 12_") for _ in range(r.randint(0, w))).rstrip(b" ") for _ in range(n)]
+            if p["values"] and p["values"][0] and r.random() < 0.15:
+                p["values"][0] = p["values"][0][:-1] + r.choice([b"\t", b"\n", b"\r"])     # a cell ending in white space that is NOT a blank (only blanks are padding)
     elif t == 1:
         p["values"] = [r.randint(-128, 127) for _ in range(cnt)]
     elif t == 2:
